@@ -17,8 +17,8 @@ def jobs(tier):
     maxn = {"quick": 40, "thorough": 120}[tier]
     for (y, m) in cells:
         for ui in range(6):
-            n = maxn if ui != 5 else (13 if tier == "quick" else 60)
-            out.append(Job("C08.ruleTimeDuration[{}-{:02d}/{}]".format(y, m, UN[ui]), H, "ob_timeduration", timeout=500,
+            n = maxn if ui != 5 else (13 if tier == "quick" else 24)     # months: N <= 60 was not confirmed in 500 s (year roll-over on symbolic month counts)
+            out.append(Job("C08.ruleTimeDuration[{}-{:02d}/{}]".format(y, m, UN[ui]), H, "ob_timeduration", timeout=500 if tier == "quick" else 1200,
                            env={"VQ_Y": str(y), "VQ_M": str(m), "VQ_UNIT": str(ui), "VQ_MAXN": str(n)},
                            bounds="start: every day of {}-{:02d}, hour None|0..23, minute None|0..59; N 0..{} {}".format(y, m, n, UN[ui]),
                            functions=[fn_id(body("ruleTimeDuration")), "dateutil.relativedelta (real)"], lift="lift_timeduration", site="ruleTimeDuration"))
